@@ -379,6 +379,60 @@ theorem rewrite_is_noop (env : Env) (fl : Flavour) (o : WriteOpts) (chunks : Lis
     exact sSpecStep_put_present cfg _ fl o chunks hp
   · rw [a1]; rfl
 
+/-- The read-only operations of the extended surface: the reads of `isRead`, and listings. -/
+def isReadX : XOp → Bool
+  | .cop op => isRead op
+  | .list => true
+  | _ => false
+
+theorem copFlags_read (m : XAbs) (op : COp) (h : isRead op = true) : copFlags cfg m m.cache op = m := by
+  cases op with
+  | put fl key o chunks => cases h
+  | get key => cases m; rfl
+  | index op => cases op <;> first | (cases m; rfl) | cases h
+  | addr op => cases op <;> first | (cases m; rfl) | cases h
+
+theorem xSpecStep_read (env : Env) (m : XAbs) (op : XOp) (h : isReadX op = true) :
+    (xSpecStep cfg env m op).1 = m := by
+  cases op with
+  | cop op =>
+    have hs := cSpecStep_read cfg env m.cache op h
+    show copFlags cfg m (cSpecStep cfg env m.cache op).1 op = m
+    rw [hs]; exact copFlags_read cfg m op h
+  | list => rfl
+  | removeFully key => cases h
+  | clear => cases h
+
+theorem xSpecRun_drop_reads (ops : List (Env × XOp)) (m : XAbs) :
+    (xSpecRun cfg (ops.filter (fun x => !isReadX x.2)) m).2 = (xSpecRun cfg ops m).2 := by
+  induction ops generalizing m with
+  | nil => rfl
+  | cons x ops ih =>
+    obtain ⟨env, op⟩ := x
+    cases hr : isReadX op with
+    | true =>
+      have hs := xSpecStep_read cfg env m op hr
+      simp only [List.filter_cons, hr, Bool.not_true, xSpecRun, hs]
+      simpa using ih m
+    | false =>
+      simp only [List.filter_cons, hr, Bool.not_false]
+      show (xSpecRun cfg _ (xSpecStep cfg env m op).1).2 = (xSpecRun cfg ops (xSpecStep cfg env m op).1).2
+      exact ih _
+
+/-- **Listings and reads are invisible in every history of the whole API surface**: delete every
+listing, keyed read, lookup, by-address read and `exists` from any history that may also contain
+writes, removals, full removals and `clear` — the final abstract state (entries, contents, bucket
+files, directories) is the same.  A listing, cold or warm, never changes what the cache holds. -/
+theorem listings_invisible (ops : List (Env × XOp)) (fs : FS) (h : XHealthy cfg cache fs)
+    (hl : HexLen cfg) (hops : ∀ x ∈ ops, x.2.WF cfg) :
+    absX cfg cache (xRunOps cfg cache (ops.filter (fun x => !isReadX x.2)) fs).2 =
+      absX cfg cache (xRunOps cfg cache ops fs).2 := by
+  have hops' : ∀ x ∈ ops.filter (fun x => !isReadX x.2), x.2.WF cfg :=
+    fun x hx => hops x (List.mem_filter.mp hx).1
+  obtain ⟨_, b1, _⟩ := ListRefine.cache_refines_map_ext cfg cache ops fs h hl hops
+  obtain ⟨_, b2, _⟩ := ListRefine.cache_refines_map_ext cfg cache _ fs h hl hops'
+  rw [b1, b2, xSpecRun_drop_reads]
+
 namespace AxiomCheckSpecLaws
 open Cacache.SpecLaws
 #print axioms removeFullySpec_idem
@@ -392,6 +446,7 @@ open Cacache.SpecLaws
 #print axioms specStep_comm
 #print axioms index_ops_commute
 #print axioms rewrite_is_noop
+#print axioms listings_invisible
 end AxiomCheckSpecLaws
 
 end Cacache.SpecLaws
